@@ -15,7 +15,7 @@
 //   remove_cell : the cell is present and no present cell has it as a face
 //   filtered    : filtration values monotone (non-decreasing or non-increasing) along the sequence; cell keys distinct
 // --seed-ops <list|all>: every history starts with that fixed operation list ("all" = insert every cell of the universe
-//   in numbering order, "allrev" = by dimension and decreasing number); the enumeration (depth counted after the seed) is exhaustive from there.
+//   in numbering order, "allrev" = by dimension and decreasing number, "dim0" / "dim01" = the cells of dimension 0 / <= 1); the enumeration (depth counted after the seed) is exhaustive from there.
 // Case encoding (replayable): "u=<universe>;ops=<c1,c2,...>;fe=<plain|storage|stream>[;dimmax=<d>;vals=<v1,...>]"
 //   op code 0 = apply_identity, 1+c = insert cell c, 1+N+c = remove cell c (N = number of cells of the universe).
 #include "harness.hpp"
@@ -80,7 +80,8 @@ struct Universe {
 static uint64_t M(std::initializer_list<int> l) { uint64_t m = 0; for (int i : l) m |= (uint64_t)1 << i; return m; }
 
 static Universe make_universe(const std::string& n) {
-  static const int keys[] = {13, -7, 1000003, 0, 42, -1, 5, 99, -100, 7, 8, 2147483647, -2147483647, 64, 1 << 20, 3};
+  static const int keys[] = {13, -7, 1000003, 0, 42, -1, 5, 99, -100, 7, 8, 2147483647, -2147483647, 64, 1 << 20, 3,
+                             -64, 17, 1 << 30, -5, 123456, 21, -2, 77};
   Universe u;
   u.name = n;
   auto add = [&](int dim, uint64_t bd, uint64_t faces) { int i = (int)u.c.size(); u.c.push_back({dim, bd, faces, keys[i]}); };
@@ -106,6 +107,26 @@ static Universe make_universe(const std::string& n) {
     for (int i = 0; i < 4; ++i) reg(0, 0);
     reg(1, M({0, 1})); reg(1, M({0, 2})); reg(1, M({0, 3})); reg(1, M({1, 2})); reg(1, M({1, 3})); reg(1, M({2, 3}));
     reg(2, M({4, 5, 7})); reg(2, M({4, 6, 8})); reg(2, M({5, 6, 9})); reg(2, M({7, 8, 9}));
+  } else if (n == "bouquet4" || n == "bouquet4w" || n == "bouquet5w") {
+    // one vertex 0, loops 1..L at it (boundary 0 over Z_2), then discs glued on sums of loops:
+    //   bouquet4  : a disc for every non-empty subset of the 4 loops (15 discs, by increasing subset mask)
+    //   bouquet4w : discs on {4}, {1,2,3,4}, {2,3}
+    //   bouquet5w : discs on {5}, {4,5}, {1,2,3,4,5}, {2,3}, {2,3,4}
+    int L = n == "bouquet5w" ? 5 : 4;
+    reg(0, 0);
+    for (int l = 0; l < L; ++l) add(1, 0, M({0}));
+    auto disc = [&](std::initializer_list<int> loops) { reg(2, M(loops)); };
+    if (n == "bouquet4") for (int m = 1; m < 16; ++m) reg(2, (uint64_t)m << 1);
+    else if (n == "bouquet4w") { disc({4}); disc({1, 2, 3, 4}); disc({2, 3}); }
+    else { disc({5}); disc({4, 5}); disc({1, 2, 3, 4, 5}); disc({2, 3}); disc({2, 3, 4}); }
+  } else if (n == "path6" || n == "star6" || n == "graph6w" || n == "cycle6") {
+    // graphs on 6 vertices 0..5 (dimension <= 1): path 01 12 23 34 45 | star 01 02 03 04 05 | cycle = path + 05 |
+    // graph6w: the three edges 25 05 23
+    for (int i = 0; i < 6; ++i) reg(0, 0);
+    if (n == "path6" || n == "cycle6") for (int i = 0; i < 5; ++i) reg(1, M({i, i + 1}));
+    if (n == "cycle6") reg(1, M({0, 5}));
+    if (n == "star6") for (int i = 1; i < 6; ++i) reg(1, M({0, i}));
+    if (n == "graph6w") { reg(1, M({2, 5})); reg(1, M({0, 5})); reg(1, M({2, 3})); }
   } else {
     fprintf(stderr, "unknown universe %s\n", n.c_str());
     exit(2);
@@ -193,6 +214,56 @@ struct Checker {
   }
   std::string case_base(const std::vector<int>& h) const { return "u=" + U.name + ";ops=" + vf::join(h); }
 
+  // Non-vacuity counters for the forward arrow (read-only peek at the real object before insert_cell, counters only):
+  // the boundary has a unique decomposition over the chain basis stored in the matrix; the unpaired chains in it are
+  // the ones the surjective reflection diamond works on.  The loop over them (increasing pivot = death order) is
+  // followed with the stored births to see how often a chain finds its birth already taken, and where.
+  void diamond_counters(ZP& zp, const std::vector<int>& bd, int len) {
+    vf::Stats& S = vf::stats();
+    std::vector<char> z(len, 0);
+    for (int b : bd) z[b] ^= 1;
+    std::vector<int> F;  // unpaired chains, by decreasing pivot
+    for (int p = len - 1; p >= 0; --p) {
+      if (!z[p]) continue;
+      auto ci = zp.matrix_.get_column_with_pivot(p);
+      auto& col = zp.matrix_.get_column(ci);
+      auto content = col.get_content(len);
+      for (int r = 0; r < len; ++r) if (content[r]) z[r] ^= 1;
+      if (!col.is_paired()) F.push_back((int)ci);
+    }
+    int p = (int)F.size();
+    S.maxi("diamond.unpaired_chains_in_boundary_max", p);
+    if (p >= 1) S.add("diamond.forward_arrows_with_" + std::to_string(std::min(p, 6)) + (p >= 6 ? "+" : "") + "_unpaired_chains");
+    if (p < 2) return;
+    std::vector<int> birth(p);
+    auto pos = [&](int b) { return zp.birthOrdering_.birthToPos_.at(b); };
+    for (int j = 0; j < p; ++j) birth[j] = zp.births_.at(F[j]);
+    std::vector<int> avail = birth;
+    auto take_max = [&]() {
+      size_t m = 0;
+      for (size_t q = 1; q < avail.size(); ++q) if (pos(avail[q]) > pos(avail[m])) m = q;
+      int b = avail[m];
+      avail.erase(avail.begin() + m);
+      return b;
+    };
+    take_max();
+    int last_mod = p - 1;
+    bool any = false;
+    for (int j = p - 1; j >= 1; --j) {
+      int position = p - j;  // 1-based position in increasing death order
+      auto it = std::find(avail.begin(), avail.end(), birth[j]);
+      if (it != avail.end()) { avail.erase(it); continue; }
+      any = true;
+      S.add("diamond.birth_not_available");
+      if (position >= 3) S.add("diamond.birth_not_available_at_position_ge3");
+      if (last_mod != j + 1 && position >= 3) S.add("diamond.birth_not_available_ge3_after_untouched_chain");
+      S.maxi("diamond.chains_cumulated_max", last_mod - j + 1);
+      birth[j] = take_max();
+      last_mod = j;
+    }
+    if (any) S.add("diamond.forward_arrows_in_birth_not_available_branch");
+  }
+
   // ---- plain Zigzag_persistence ----
   // returns false on mismatch
   bool run_plain(const std::vector<int>& h, const std::vector<Interval>& want_all) {
@@ -213,6 +284,7 @@ struct Checker {
           std::vector<int> bd;
           for (int f = 0; f < N; ++f) if (U.c[c].bd >> f & 1) bd.push_back(last_ins[f]);
           std::sort(bd.begin(), bd.end());
+          if (!bd.empty()) diamond_counters(zp, bd, (int)i);
           size_t before = fin.size();
           ret = zp.insert_cell(bd, U.c[c].dim);
           last_ins[c] = (int)i;
@@ -715,6 +787,9 @@ int main(int argc, char** argv) {
   {
     std::string sd = a.get("seed-ops", "");
     if (sd == "all") for (int c = 0; c < U.N(); ++c) e.seed.push_back(1 + c);  // every cell of the universe, by number
+    else if (sd == "dim0" || sd == "dim01") {  // every vertex (dim0), resp. every vertex then every 1-cell (dim01), by number
+      for (int d = 0; d <= (sd == "dim0" ? 0 : 1); ++d) for (int c = 0; c < U.N(); ++c) if (U.c[c].dim == d) e.seed.push_back(1 + c);
+    }
     else if (sd == "allrev") {  // every cell, by dimension, cells of one dimension by decreasing number
       for (int d = 0; d <= 3; ++d) for (int c = U.N() - 1; c >= 0; --c) if (U.c[c].dim == d) e.seed.push_back(1 + c);
     }
